@@ -106,6 +106,8 @@ def gen_reshape_op(rng, allow=RESHAPE):
              "alpha": rng.choice([1, 2, 3]), "strategy": rng.choice(["closest", "closest", "lower", "higher"])}
         if rng.random() < 0.2:
             d["fp_kind"] = "sorted_repeat"
+        elif rng.random() < 0.15:
+            d["s"] = rng.choice([0.0, 0.5, 2.0])      # the optional final spline smoothing (external; its result is data)
         return d
     if k == "interp":
         d = {"op": k, "method": rng.choice(["linear", "constant", "cubic", "spline"])}
@@ -263,7 +265,7 @@ def apply_op(w, op, rng_state=None):
             raise Skip()          # an earlier cut by index emptied the reference: these operations need one
         if k == "trunc_v" and len(x) < 2:
             raise Skip()
-        needs_spline = k == "smooth" or (k == "interp" and op["method"] in ("cubic", "spline"))
+        needs_spline = k == "smooth" or (k == "interp" and op["method"] in ("cubic", "spline")) or (k == "match" and "s" in op)
         if needs_spline and len(x) < 5:
             raise Skip()
         if k in ("recreate", "repeat") and len(x) * (op.get("n", 1) * op.get("r", 1)) > 4000:
@@ -457,6 +459,9 @@ def apply_op(w, op, rng_state=None):
                 f"{fmt_opt(fpi, fmt_ints)} {op['strategy']} {op['target']} {op['ref']}")
         op["_line"] = line
         kw = {}
+        if "s" in op:
+            kw["s"] = op["s"]
+            op["_line"] = "wop smooth -"
         if fpx is not None:
             kw["fixed_points_in_x"] = [float(Fraction(v)) for v in fpx]
         if fpi is not None:
@@ -466,6 +471,9 @@ def apply_op(w, op, rng_state=None):
             w.integral_match(target_function_integral_method=S.text(op["target"], rep),
                              reference_function_integral_method=S.text(op["ref"], rep),
                              alpha=op["alpha"], fixed_points_finding_strategy=S.text(op["strategy"], rep), **kw)
+        if "s" in op:
+            # matching followed by the spline through the matched values: for the model the values are external data
+            return f"wop smooth {fmt_list([frac(v) for v in w.y])}"
         return line
     if k == "interp":
         m = op["method"]
